@@ -26,13 +26,18 @@ def run_history(rec, prop, case, nontrivial, label=None, sample_extra=None):
     mon = monitor.HistoryMonitor()
     args = dict(case)
     try:
-        ctx, reason = engine.run(text, case["seed"], case["events"], mon)
+        ctx, reason = engine.run(text, case["seed"], case["events"], mon, cluster=case.get("cluster"))
     except (HarnessError, Violation):
         raise
     except Exception as exc:
         sig = exception_signature(exc)
         if sig is None:
             raise
+        # verdicts the monitor reached before the run died come first: they are observations of this property
+        for v in mon.by_property(prop):
+            rec.fail("%s/%s" % (prop, v["signature"]), "%s [config %s, seed %d, commit %s; the run later aborted with %s]"
+                     % (v["message"], case["base"], case["seed"], v["event"], type(exc).__name__),
+                     dict(args, first_violating_commit=v["event"]))
         owner = owner_of(sig)
         msg = "run of %s aborted after %d commits by %s: %s" % (case["base"], mon.stats["commits"],
                                                                type(exc).__name__, exc)
@@ -46,13 +51,15 @@ def run_history(rec, prop, case, nontrivial, label=None, sample_extra=None):
             v["message"], case["base"], case["seed"], v["event"]), dict(args, first_violating_commit=v["event"]))
     nt = bool(nontrivial(mon))
     lab = label(mon, case) if label else case["base"].split("/")[-1].replace(".ini", "")
-    sample = {"base": case["base"], "edits": case["edits"], "seed": case["seed"], "commits": mon.stats["commits"],
+    sample = {"base": case["base"], "edits": case["edits"], "seed": case["seed"], "cluster": case.get("cluster"),
+              "commits": mon.stats["commits"],
               "end": getattr(mon, "reason", None), "handlers": dict(mon.committed_classes),
               "stats": {k: v for k, v in mon.stats.items() if not k.startswith("commit/")}}
     if sample_extra:
         sample.update(sample_extra(mon))
-    rec.case(lab + ("" if not case["edits"] else "+edits"), (case["base"], tuple(map(tuple, case["edits"])),
-                                                            case["seed"], case["events"]), nt, sample)
+    rec.case(lab + ("" if not case["edits"] else "+edits") + ("+clustered" if case.get("cluster") else ""),
+             (case["base"], tuple(map(tuple, case["edits"])), case["seed"], case["events"], case.get("cluster")), nt,
+             sample)
     for k, v in mon.stats.items():
         rec.extra.setdefault("sum_" + k, {"value": 0, "where": None})
         rec.extra["sum_" + k]["value"] += v
